@@ -179,43 +179,45 @@ func c12Run(t *testing.T, r *vk.Reporter, id string, sc *c12Scn) (steps int, kin
 			g.net.ReleaseCut(it, n, sc.Fault.Kind)
 			return true
 		}
-		// acceptor side
-		ops.begin("srv.Accept-loop")
-		go func() {
-			defer ops.end("srv.Accept-loop")
-			for {
-				conn, err := g.srv.Accept()
-				if err != nil {
-					return
-				}
-				ops.begin("acceptor-stream")
-				go func() {
-					defer ops.end("acceptor-stream")
-					hdr := make([]byte, 16)
-					if _, err := io.ReadFull(conn, hdr); err != nil {
-						return // fault before the header was complete
-					}
-					tag, _ := rigHeader(hdr)
-					s := plans[tag]
-					if s == nil {
-						setV("corrupt-header", fmt.Sprintf("accepted stream with unknown header tag %#x", tag))
+		// acceptor side: two goroutines block in Accept (every blocked accept must return on teardown)
+		for acc := 0; acc < 2; acc++ {
+			ops.begin("srv.Accept-loop")
+			go func() {
+				defer ops.end("srv.Accept-loop")
+				for {
+					conn, err := g.srv.Accept()
+					if err != nil {
 						return
 					}
-					s.mu.Lock()
-					s.upGot = append(s.upGot, hdr...)
-					s.mu.Unlock()
-					ops.begin("acceptor-writer")
+					ops.begin("acceptor-stream")
 					go func() {
-						defer ops.end("acceptor-writer")
-						writeChunks(conn, s.Tag|downBit, sum(s.Down), s.Down, func(string, ...any) {})
-						if s.CloseBy == "acceptor" {
-							conn.Close()
+						defer ops.end("acceptor-stream")
+						hdr := make([]byte, 16)
+						if _, err := io.ReadFull(conn, hdr); err != nil {
+							return // fault before the header was complete
 						}
+						tag, _ := rigHeader(hdr)
+						s := plans[tag]
+						if s == nil {
+							setV("corrupt-header", fmt.Sprintf("accepted stream with unknown header tag %#x", tag))
+							return
+						}
+						s.mu.Lock()
+						s.upGot = append(s.upGot, hdr...)
+						s.mu.Unlock()
+						ops.begin("acceptor-writer")
+						go func() {
+							defer ops.end("acceptor-writer")
+							writeChunks(conn, s.Tag|downBit, sum(s.Down), s.Down, func(string, ...any) {})
+							if s.CloseBy == "acceptor" {
+								conn.Close()
+							}
+						}()
+						readUntilErr(conn, &s.upGot, &s.upDone, &s.mu, rand.New(rand.NewPCG(tag, 1)))
 					}()
-					readUntilErr(conn, &s.upGot, &s.upDone, &s.mu, rand.New(rand.NewPCG(tag, 1)))
-				}()
-			}
-		}()
+				}
+			}()
+		}
 		// opener side
 		for _, s := range sc.Streams {
 			s := s
@@ -484,7 +486,11 @@ func c12Timer(t *testing.T, r *vk.Reporter, id string, cfg rigCfg, offset time.D
 			}
 		}
 		if cfg.NumConn == 0 {
-			// singleplex: closing the stream closes the session
+			// singleplex: a second stream is refused (whatever the answer, it must not upset the
+			// bookkeeping), and closing the only stream closes the session
+			if st2, err := g.cli.OpenStream(); err == nil && st2 != nil {
+				st2.Close()
+			}
 			st.Close()
 			g.settle()
 			if !g.cli.IsClosed() {
